@@ -15,7 +15,7 @@ use rustrtc::transports::dtls::{Certificate, fingerprint, generate_certificate};
 use std::collections::VecDeque;
 
 #[derive(Clone, Debug, PartialEq)]
-pub enum Act { Drop, Dup, Swap, FlipBody(u16), CertOther, CertEmpty, CertGarbage, Resign, CertOtherResign, FlipSig, FlipKey, FlipRandom, StripExt(u16), FlipCipher, Fragment(u16), FragDupMid(u16), FragReorder(u16), SeqMinus1, Impostor, ImpostorChain, ExtraCert, RefragTailLost(u16), RefragEvery3(u16), PreInject(u8), ForgeFinishedBad, InsertCert, RefragOverlap(u16), InsertHs(u8), PreInjectHs(u8), CloseClient, CloseServer, AtkSke, InsertHsBefore(u8), RepeatSame, DropN(u8), PreInject3(u8), ImpostorKey(u8) }
+pub enum Act { Drop, Dup, Swap, FlipBody(u16), CertOther, CertEmpty, CertGarbage, Resign, CertOtherResign, FlipSig, FlipKey, FlipRandom, StripExt(u16), FlipCipher, Fragment(u16), FragDupMid(u16), FragReorder(u16), SeqMinus1, Impostor, ImpostorChain, ImpostorTail, ExtraCert, RefragTailLost(u16), RefragEvery3(u16), PreInject(u8), ForgeFinishedBad, InsertCert, RefragOverlap(u16), InsertHs(u8), PreInjectHs(u8), CloseClient, CloseServer, AtkSke, InsertHsBefore(u8), RepeatSame, DropN(u8), PreInject3(u8), ImpostorKey(u8) }
 
 #[derive(Clone, Debug, PartialEq)]
 pub struct Rule { pub from_client: bool, pub typ: u8, pub act: Act }
@@ -31,7 +31,7 @@ impl Script {
             Act::CertOtherResign => "otherresign".into(), Act::FlipSig => "flipsig".into(), Act::FlipKey => "flipkey".into(),
             Act::FlipRandom => "fliprandom".into(), Act::StripExt(e) => format!("strip{e}"), Act::FlipCipher => "flipcipher".into(),
             Act::Fragment(n) => format!("frag{n}"), Act::FragDupMid(n) => format!("fragdup{n}"), Act::FragReorder(n) => format!("fragreorder{n}"),
-            Act::SeqMinus1 => "seqminus1".into(), Act::Impostor => "impostor".into(), Act::ImpostorChain => "impostorchain".into(),
+            Act::SeqMinus1 => "seqminus1".into(), Act::Impostor => "impostor".into(), Act::ImpostorChain => "impostorchain".into(), Act::ImpostorTail => "impostortail".into(),
             Act::ExtraCert => "extracert".into(), Act::RefragTailLost(n) => format!("refragtaillost{n}"), Act::RefragEvery3(n) => format!("refragevery{n}"),
             Act::PreInject(ct) => format!("preinject{ct}"), Act::ForgeFinishedBad => "forgefinishedbad".into(), Act::InsertCert => "insertcert".into(), Act::InsertHs(t) => format!("inserths{t}"), Act::PreInjectHs(t) => format!("prehs{t}"),
             Act::CloseClient => "closeclient".into(), Act::CloseServer => "closeserver".into(), Act::AtkSke => "atkske".into(),
@@ -50,7 +50,7 @@ impl Script {
             let num = |pre: &str| a[pre.len()..].parse::<u16>().unwrap();
             let act = match a { "drop" => Act::Drop, "dup" => Act::Dup, "swap" => Act::Swap, "other" => Act::CertOther, "empty" => Act::CertEmpty,
                 "garbage" => Act::CertGarbage, "resign" => Act::Resign, "otherresign" => Act::CertOtherResign, "flipsig" => Act::FlipSig,
-                "flipkey" => Act::FlipKey, "fliprandom" => Act::FlipRandom, "flipcipher" => Act::FlipCipher, "seqminus1" => Act::SeqMinus1, "forgefinishedbad" => Act::ForgeFinishedBad, "insertcert" => Act::InsertCert, "closeclient" => Act::CloseClient, "closeserver" => Act::CloseServer, "atkske" => Act::AtkSke, "repeatsame" => Act::RepeatSame, "impostor" => Act::Impostor, "impostorchain" => Act::ImpostorChain, "extracert" => Act::ExtraCert,
+                "flipkey" => Act::FlipKey, "fliprandom" => Act::FlipRandom, "flipcipher" => Act::FlipCipher, "seqminus1" => Act::SeqMinus1, "forgefinishedbad" => Act::ForgeFinishedBad, "insertcert" => Act::InsertCert, "closeclient" => Act::CloseClient, "closeserver" => Act::CloseServer, "atkske" => Act::AtkSke, "repeatsame" => Act::RepeatSame, "impostor" => Act::Impostor, "impostorchain" => Act::ImpostorChain, "impostortail" => Act::ImpostorTail, "extracert" => Act::ExtraCert,
                 x if x.starts_with("flipbody") => Act::FlipBody(num("flipbody")), x if x.starts_with("strip") => Act::StripExt(num("strip")),
                 x if x.starts_with("preinjectthird") => Act::PreInject3(num("preinjectthird") as u8),
                 x if x.starts_with("preinject") => Act::PreInject(num("preinject") as u8),
@@ -145,7 +145,7 @@ fn apply(act: &Act, dg: &[u8], atk: &Attacker, randoms: &(Vec<u8>, Vec<u8>), occ
                 b.truncate(i); b.extend_from_slice(&(out.len() as u16).to_be_bytes()); b.extend_from_slice(&out);
             } })],
         Act::FlipCipher => { let mut d = dg.to_vec(); let n = d.len(); d[n - 20] ^= 1; vec![d] }
-        Act::Impostor | Act::ImpostorChain | Act::ExtraCert | Act::ForgeFinishedBad | Act::InsertHs(_) | Act::PreInjectHs(_) | Act::CloseClient | Act::CloseServer | Act::AtkSke | Act::InsertHsBefore(_) | Act::RepeatSame | Act::PreInject3(_) | Act::ImpostorKey(_) => vec![dg.to_vec()], // handled by the proxy loop
+        Act::Impostor | Act::ImpostorChain | Act::ImpostorTail | Act::ExtraCert | Act::ForgeFinishedBad | Act::InsertHs(_) | Act::PreInjectHs(_) | Act::CloseClient | Act::CloseServer | Act::AtkSke | Act::InsertHsBefore(_) | Act::RepeatSame | Act::PreInject3(_) | Act::ImpostorKey(_) => vec![dg.to_vec()], // handled by the proxy loop
         Act::DropN(_) => vec![], // the first n occurrences are lost (persistent rule, see the proxy loop)
         Act::InsertCert => {
             // a second Certificate message (the attacker's certificate), in sequence right after the genuine one;
@@ -265,6 +265,8 @@ pub async fn run_script_ticks(sc: &Script, max_ticks: u32) -> Option<Outcome> {
     // impostor servers (the pinned fingerprint stays the genuine server's):
     //  impostor       presents the genuine certificate but holds (and signs with) another key
     //  impostorchain  presents [attacker certificate, genuine certificate] and signs with the attacker's key
+    //  impostortail   presents [genuine certificate, attacker certificate] and signs with the attacker's key (the pinned
+    //                 fingerprint matches the FIRST entry, the signature only verifies under the LAST: must be refused)
     //  extracert      the genuine server, presenting [genuine certificate, some other certificate] (must still connect)
     let has = |a: Act| sc.rules.iter().any(|r| r.act == a);
     let scert = if false { scert
@@ -273,13 +275,16 @@ pub async fn run_script_ticks(sc: &Script, max_ticks: u32) -> Option<Outcome> {
     } else if has(Act::ImpostorChain) {
         let mut c = Certificate::default(); c.certificate = vec![atk.cert.certificate[0].clone(), scert.certificate[0].clone()];
         c.private_key = atk.cert.private_key.clone(); c
+    } else if has(Act::ImpostorTail) {
+        let mut c = Certificate::default(); c.certificate = vec![scert.certificate[0].clone(), atk.cert.certificate[0].clone()];
+        c.private_key = atk.cert.private_key.clone(); c
     } else if has(Act::ExtraCert) {
         let mut c = Certificate::default(); c.certificate = vec![scert.certificate[0].clone(), atk.cert.certificate[0].clone()];
         c.private_key = scert.private_key.clone(); c
     } else { scert };
     let mut s = Recd::new(false, scert, exp_s.clone()).await;
     // scripts in which an endpoint must refuse: watch what its state channel shows meanwhile
-    let spies = if sc.ce == 'b' || EXPECTED_VARIANTS.contains(&sc.ce) || sc.rules.iter().any(|r| matches!(r.act, Act::ForgeFinishedBad | Act::InsertCert | Act::Impostor | Act::ImpostorChain | Act::CertOther | Act::CertOtherResign | Act::FlipSig | Act::FlipKey)) { Some(c.ep.spy()) } else { None };
+    let spies = if sc.ce == 'b' || EXPECTED_VARIANTS.contains(&sc.ce) || sc.rules.iter().any(|r| matches!(r.act, Act::ForgeFinishedBad | Act::InsertCert | Act::Impostor | Act::ImpostorChain | Act::ImpostorTail | Act::CertOther | Act::CertOtherResign | Act::FlipSig | Act::FlipKey)) { Some(c.ep.spy()) } else { None };
     let (c_src, s_src) = (c.ep.sink_addr, s.ep.sink_addr);
     let mut q_cs: VecDeque<Vec<u8>> = VecDeque::new();
     let mut q_sc: VecDeque<Vec<u8>> = VecDeque::new();
@@ -634,7 +639,7 @@ pub fn scripts(thorough: bool, rng: &mut Rng) -> Vec<Script> {
         vec![r(true, 20, Act::FlipCipher)], vec![r(false, 20, Act::FlipCipher)], vec![r(true, 20, Act::Drop)], vec![r(false, 20, Act::Drop)],
         vec![r(true, 20, Act::Dup)], vec![r(false, 20, Act::Dup)],
         vec![r(false, 11, Act::Fragment(100))], vec![r(false, 12, Act::Fragment(30))],
-        vec![r(false, 0, Act::Impostor)], vec![r(false, 0, Act::ImpostorChain)], vec![r(false, 0, Act::ExtraCert)],
+        vec![r(false, 0, Act::Impostor)], vec![r(false, 0, Act::ImpostorChain)], vec![r(false, 0, Act::ImpostorTail)], vec![r(false, 0, Act::ExtraCert)],
         // the client's own verify_data comparison: a Finished that authenticates as a record but carries a wrong value
         vec![r(false, 20, Act::ForgeFinishedBad)],
         // a second, in-sequence Certificate message (attacker's) after the genuine one, alone and with the key
